@@ -102,6 +102,45 @@ def py_subgroups(files, roots, by_id):
     return [g for g in out if g] + [rest[k] for k in order]
 
 
+def huge_files_order_check(ctx):
+    """groups ordered by decreasing file size also beyond 4 GiB: sparse files (no data blocks), --skip-content-hash so that only
+    prefix and suffix are read; every format"""
+    base = os.path.join(ctx.scratch, "huge")
+    os.makedirs(base, exist_ok=True)
+    sizes = [(1 << 32) + 10, (1 << 32) + 5, (1 << 33) + 1, (1 << 32) - 7, 100, 70000]
+    try:
+        for k, sz in enumerate(sizes):
+            for c in "ab":
+                with open(os.path.join(base, "s%d%s" % (k, c)), "wb") as f:
+                    f.truncate(sz)
+    except OSError as e:
+        ctx.bump("huge_files", "skipped(%s)" % e.__class__.__name__)
+        return
+    for fmt in ("json", "default", "csv", "fdupes"):
+        rc, out, err = treegen.fclones(["group", base, "--skip-content-hash", "-f", fmt], cwd=base, env={"FCLONES_VERIF_DISK_KIND": "ssd"})
+        ctx.count()
+        ctx.distinct(("huge", fmt), True)
+        ctx.bump("huge_files", fmt)
+        payload = {"scenario": "sparse files of sizes %s (two each), --skip-content-hash" % sizes, "format": fmt, "stderr": err.decode("utf-8", "replace")[-300:]}
+        if rc != 0:
+            ctx.violation({"kind": "run_failed", "dimension": "huge_files"}, "fclones group failed (%d)" % rc, payload, found_input=True)
+            continue
+        if fmt == "json":
+            lens = [g["len"] for g in treegen.parse_json_report(out.decode("utf-8"))[1]]
+        elif fmt == "default":
+            lens = [l for h, l, c, p in parse_text(out)[1]]
+        elif fmt == "csv":
+            lens = [l for h, l, c, p in parse_csv(out)]
+        else:
+            lens = [os.stat(g[0]).st_size for g in parse_fdupes(out)]
+        payload["group_lengths"] = lens
+        if sorted(lens, reverse=True) != lens or sorted(lens) != sorted(sizes):
+            ctx.violation({"kind": "groups_not_by_decreasing_size", "dimension": "huge_files"},
+                          "groups are not listed by decreasing file size / a size class is missing: %s" % lens, payload, found_input=True)
+    import shutil
+    shutil.rmtree(base, ignore_errors=True)
+
+
 def run(ctx):
     ctx.rule = ("generated trees x option sets (default, --rf-over k, --unique, --rf-under k, --isolate, --match-links, transform) x "
                 "4 output formats; a case = (tree, option set); non-trivial = the report has at least one group; "
@@ -203,7 +242,14 @@ def run(ctx):
             if not same:
                 ctx.violation({"kind": "output_file_differs_from_stdout"}, "-f %s -o FILE differs from the same report on stdout" % fmt2,
                               {"tree": ti, "opts": opts, "format": fmt2}, found_input=True)
-        hdr, jgroups = treegen.parse_json_report(outs["json"].decode("utf-8"))
+        try:
+            hdr, jgroups = treegen.parse_json_report(outs["json"].decode("utf-8"))
+        except Exception as e:  # noqa
+            # the JSON report must use the same path encoding (STFU-8) as the other formats and the readers
+            ctx.violation({"kind": "json_report_undecodable"}, "the JSON report cannot be decoded (paths are not valid STFU-8?): %r" % (e,),
+                          {"tree": "treegen.gen_tree index %d (VERIF_SEED=%d)" % (ti, ctx.seed), "opts": opts,
+                           "roots": [r.decode("utf-8", "replace") for r in roots]}, found_input=True)
+            continue
         js = hdr.get("stats", {})
         nontrivial = len(jgroups) > 0
         ctx.distinct((ti, tuple(opts)), nontrivial)
@@ -316,3 +362,4 @@ def run(ctx):
         if not allrep:
             ctx.violation({"kind": "model_filter_rejects_group"}, "ReportModel.matches_strictly rejects a reported group", payload, found_input=False)
         ctx.sample({"tree": ti, "opts": opts, "groups": len(jgroups), "header": jstats, "model": m})
+    huge_files_order_check(ctx)
